@@ -912,10 +912,23 @@ def describe_arg(f, op):
     if s is not None:
         return s
     o = peel(f.origin_op(op))
+    # parameters are recognised by their type, fields of the format by their field name (never by the parameter's name)
+    base = o
+    projs = []
+    while base and base[0] in ("place", "ref", "cast"):
+        if base[0] == "place":
+            projs = list(base[2]) + projs
+        base = base[1]
+    if base and base[0] == "param":
+        ty = f.local_ty(base[1]) or ""
+        fields = [pr["name"] for pr in projs if isinstance(pr, dict) and "f" in pr]
+        if "OutputFormat" in ty and fields:
+            return "field:" + fields[-1]
+        if "BitVec" in ty and not fields:
+            return "self" if (base[1] == 1 and "BitVec>::" in f.id) else "output"
+        if "FileServer" in ty and not fields:
+            return "fileserver"
     d = describe_origin(f, o).replace("*", "").replace("&", "")
-    m = re.match(r"^param:format@(\w+)\.(\w+)$", d)
-    if m:
-        return "field:" + m.group(2)
     m = re.match(r"^param:(\w+)((?:\.\w+)*)$", d)
     if m:
         return m.group(1) + m.group(2)
